@@ -83,11 +83,14 @@ Definition result_ok (s : store) (now : N) (q : hreq) (r : hres) : bool :=
 
 (* runs model and reference along the observed sequence;
    returns (model agreed everywhere, oracle held everywhere) *)
+Section Walk.
+(* the model under comparison (Inmem.inmem_exec; checks/Check17Old.v instantiates the history model) *)
+Variable exec : cstate -> N -> hreq -> cstate * hres.
 Fixpoint walk17 (keys : list bytes) (st : cstate) (s : store) (obs : dump17) (l : list step17) : bool * bool :=
   match l with
   | [] => (true, true)
   | mkS17 now q r od :: rest =>
-      let '(st', mr) := inmem_exec st now q in
+      let '(st', mr) := exec st now q in
       let '(s', _) := gspec_step inmem_norm s now (cmd_of q) in
       let obs' := match od with Some dl => dump_apply obs dl | None => obs end in
       let m_ok := hres_eqb r mr && match od with Some _ => state_matches keys st' obs' | None => true end in
@@ -108,10 +111,13 @@ Definition req_keys (q : hreq) : list bytes :=
   | HGet items | HGetE items => map gi_key items
   end.
 
-Definition check17 (c : case17) : N :=
+Definition check17_with (c : case17) : N :=
   let keys := c17_keys c in
   let steps := c17_steps c in
   if negb (forallb (fun st => forallb (key_in keys) (req_keys (s17_req st))) steps) then 1
   else
     let '(m, o) := walk17 keys cempty empty_store [] steps in
     if o then (if m then 0 else 1) else (if m then 3 else 2).
+End Walk.
+
+Definition check17 : case17 -> N := check17_with inmem_exec.
